@@ -75,5 +75,10 @@ CHECKS = {
   "note": "Trusted: exact coordinate comparison; 'supporting read' = a line of transcript_model_reads.",
   "technique": "offline containment/inequality checker over output files",
  },
+ "C14": {
+  "text": "Every record of corrected_reads.bed from CLI runs (all six splice-correction strategies x data types, annotated and annotation-free with a short-read BAM) is judged: BED12 arithmetic, start/end preserved unless an enabled terminal correction with the matching event applies, every splice site in the allowed set (own sites, annotated introns equal to a read intron within delta, introns of a reported isoform, short-read junctions), strategy none = identity. Reads are built to trigger each event (jitter with/without errors next to junctions, misaligned/skipped micro-exons, retained micro-introns, intron shifts, fake terminal exons, missed short terminal exons, far alternative sites); a strategy that changes no read makes the run inconclusive. Sampled worlds.",
+  "note": "Trusted: BED/TSV parsers, independent CIGAR walk for annotation-free inputs; the allowed-site set is a superset of what a legitimate correction can produce.",
+  "technique": "offline checker over corrected alignments vs input alignments, reported events and annotation",
+ },
 }
 NOT_APPLICABLE = {}
